@@ -6,7 +6,7 @@ from .. import scenes, obs, oracles, twin, pipeline
 
 ID, NUM, LEVEL = 'C10', 10, 'exploration'
 VARIANTS = ['idx_permuted', 'idx_offset', 'idx_string', 'idx_float', 'idx_concat', 'idx_random_repeats', 'idx_all_same',
-            'idx_sorted_repeats', 'idx_datetime', 'cols_permuted', 'cols_extra', 'ceilo_object', 'ceilo_str_or_category',
+            'idx_sorted_repeats', 'idx_datetime', 'idx_named_like_column', 'idx_multi_from_columns', 'cols_permuted', 'cols_extra', 'ceilo_object', 'ceilo_str_or_category',
             'type_float', 'type_narrow_int', 'dt_height_int', 'height_float32']
 RULE = ('Evaluation = one (plainly indexed frame, variant frame) pair run through the real pipeline; the two canonical '
         'observations (three tables incl. dtypes, three messages, flag, per-hit data by position) must be bit-'
@@ -47,11 +47,19 @@ def make_variant(rng, df, name):
         out.index = pd.Index(np.sort(rng.integers(0, max(2, n // 2), n)))
     elif name == 'idx_datetime':
         out.index = pd.to_datetime('2024-01-01') + pd.to_timedelta(rng.integers(0, 5, n), unit='s')
+    elif name == 'idx_named_like_column':
+        out.index = pd.Index(rng.permutation(n), name=str(rng.choice(['dt', 'ceilo', 'height', 'type'])))
+        if rng.uniform() < 0.5:
+            out = df.set_index(str(rng.choice(['dt', 'ceilo'])), drop=False)
+    elif name == 'idx_multi_from_columns':
+        out = df.set_index(['ceilo', 'dt'], drop=False)
     elif name == 'cols_permuted':
         out = out[list(rng.permutation(out.columns))]
     elif name == 'cols_extra':
         out.insert(0, 'station', 'LSGG')
         out['quality'] = rng.uniform(size=n)
+        if rng.uniform() < 0.5:
+            out['aux'] = [[i] for i in range(n)]          # unhashable cells
         out = out[list(rng.permutation(out.columns))]
     elif name == 'ceilo_object':
         out['ceilo'] = out['ceilo'].astype(object)
